@@ -118,14 +118,14 @@ theorem insFold_perm {α : Type} (p : α → α → Bool) (L : List α) : ∀ ac
     have h2 := this.append_right L
     simpa [List.append_assoc] using h2
 
-theorem dumpEvents_perm (s : Sim σ T) :
+theorem dumpEvents_perm_liveS (s : Sim σ T) :
     s.dumpEvents.Perm (s.events.filter (fun e => !s.canceled.contains e.id)) := by
   have := insFold_perm (Sim.evBefore (T := T)) (s.events.filter (fun e => !s.canceled.contains e.id)) []
   simpa [Sim.dumpEvents] using this
 
 theorem mem_dumpEvents (s : Sim σ T) (e : QEv T) :
     e ∈ s.dumpEvents ↔ e ∈ s.events ∧ e.id ∉ s.canceled := by
-  rw [(dumpEvents_perm s).mem_iff]
+  rw [(dumpEvents_perm_liveS s).mem_iff]
   simp [List.mem_filter]
 
 /-! ### `disconnect_node` folded over the crashed nodes -/
